@@ -149,8 +149,10 @@ def run(ctx):
         if not quick:
             for fam in oc.FAMILIES:
                 gs.append(ex.submit(ctx.mc, "mc/MC_OpenAPIOps", consts={"OFamily": '"%s"' % fam}, label="MC " + fam, workers=3))
-            gs.append(ex.submit(ctx.mc, "mc/MC_OpenAPIOps", consts={"OFamily": '"mix"', "NSvc": 1, "NMeth": 1}, label="MC mix 1x1", timeout=1500, workers=4))
-            gs.append(ex.submit(ctx.mc, "mc/MC_OpenAPIOps", consts={"OFamily": '"params"', "NSvc": 1, "NMeth": 2}, label="MC params 1x2", timeout=1500, workers=4))
+            # larger bounds: two services / two methods per service where the levels interact
+            for fam, nsvc, nmeth in (("sec", 2, 1), ("sec", 1, 2), ("paths", 2, 2), ("files", 2, 1), ("resps", 1, 2), ("verbs", 1, 2)):
+                gs.append(ex.submit(ctx.mc, "mc/MC_OpenAPIOps", consts={"OFamily": '"%s"' % fam, "NSvc": nsvc, "NMeth": nmeth},
+                                    label="MC %s %dx%d" % (fam, nsvc, nmeth), timeout=1500, workers=4))
         for g in gs:
             g.result()
         small = []
